@@ -276,6 +276,33 @@ func inValues(rng *rand.Rand, n int, p *big.Int, k int) []*big.Int {
 	return out
 }
 
+// dyadicValues: field elements that are small only after scaling by a power of
+// two: +-k * 2^-j mod p for small k and j = 1..maxJ. As integers they are huge
+// (all those returned are >= 2^n), but v * 2^j mod p is tiny: a range check that
+// looks at a scaled value instead of the value itself accepts them.
+func dyadicValues(n int, p *big.Int, maxJ int) []*big.Int {
+	ks := []*big.Int{big.NewInt(1), big.NewInt(2), big.NewInt(3), big.NewInt(5), new(big.Int).Sub(pow2(n), big.NewInt(1)), new(big.Int).Add(pow2(n), big.NewInt(1))}
+	var out []*big.Int
+	seen := map[string]bool{}
+	for j := 1; j <= maxJ; j++ {
+		inv := new(big.Int).ModInverse(new(big.Int).Mod(pow2(j), p), p)
+		if inv == nil {
+			continue
+		}
+		for _, k := range ks {
+			v := new(big.Int).Mul(k, inv)
+			v.Mod(v, p)
+			for _, c := range []*big.Int{v, new(big.Int).Mod(new(big.Int).Neg(v), p)} {
+				if c.BitLen() > n && !seen[c.String()] {
+					seen[c.String()] = true
+					out = append(out, c)
+				}
+			}
+		}
+	}
+	return out
+}
+
 func outValues(rng *rand.Rand, n int, p *big.Int, k int) []*big.Int {
 	lo := pow2(n)
 	if lo.Cmp(p) >= 0 {
@@ -292,6 +319,11 @@ func outValues(rng *rand.Rand, n int, p *big.Int, k int) []*big.Int {
 	span := new(big.Int).Sub(p, lo)
 	for i := 0; i < 3; i++ {
 		cands = append(cands, new(big.Int).Add(lo, randBelow(rng, span)))
+	}
+	if dy := dyadicValues(n, p, 17); len(dy) > 0 {
+		for i := 0; i < 3; i++ {
+			cands = append(cands, dy[rng.IntN(len(dy))])
+		}
 	}
 	// a value whose low n bits are a valid in-range number (only the high part is wrong)
 	cands = append(cands, new(big.Int).Add(new(big.Int).Lsh(big.NewInt(int64(1+rng.IntN(5))), uint(n)), randBelow(rng, lo)))
